@@ -9,7 +9,7 @@ use crate::engine::{catch, h64, par_range, run_generated, show_bytes, Ctx, Stats
 use crate::oracle::hex::{ref_decode, ref_shape, RefDecode};
 use crate::props::c01::{addr_strategy, byte_strategy};
 
-pub const RULE: &str = "byte strings from three generators: (i) exhaustive - every string of length 0..=4 (quick) / 0..=5 (thorough) over the 28-symbol structural alphabet {':', 0-9, A-F, a-f, 'G', CR, LF, NUL, 0xFF}, every minimal frame ':'+10 digits over {0,1,F,f} x 9 terminator variants, and every one-data-byte frame ':'+12 digits over {0,1,F}; (ii) grammar based - optional junk prefix, colon, hex pairs in random case with right/wrong length field and right/wrong checksum, optional odd digit, terminator variant, optional suffix/second frame, 0..3 random byte edits, up to ~600 bytes; each compared with a hand-written byte-level parser on accept/reject, error class, the numbers the class reports, and (if accepted) re-encoding. Non-trivial = the string has the documented shape (it reaches the length/checksum logic) or is within one byte edit of having it; distinct by hash of the string";
+pub const RULE: &str = "byte strings from three generators: (i) exhaustive - every string of length 0..=4 (quick) / 0..=5 (thorough) over the 28-symbol structural alphabet {':', 0-9, A-F, a-f, 'G', CR, LF, NUL, 0xFF}, every minimal frame ':'+10 digits over {0,1,F,f} x 9 terminator variants, and every one-data-byte frame ':'+12 digits over {0,1,F}; (ii) grammar based - optional junk prefix, colon, hex pairs in random case with right/wrong length field and right/wrong checksum, optional odd digit, terminator variant, optional suffix/second frame, 0..3 random byte edits or multi-byte UTF-8 look-alikes of digits/letters/colon/line ends, up to ~600 bytes; each compared with a hand-written byte-level parser on accept/reject, error class, the numbers the class reports, and (if accepted) re-encoding. Non-trivial = the string has the documented shape (it reaches the length/checksum logic) or is within one byte edit of having it; distinct by hash of the string";
 pub const ASSUMPTIONS: &[&str] = &["the reference parser in oracle/hex.rs implements the documented form (':' + hex pairs in either case + optional single CRLF) and the stated precedence malformed > length > checksum"];
 
 #[derive(Serialize, Deserialize, Debug, Clone)]
@@ -145,6 +145,14 @@ pub fn check_bytes(bytes: &[u8], st: &mut Stats, classify: bool) -> Result<(), S
     Ok(())
 }
 
+/// Multi-byte UTF-8 sequences that a text-oriented decoder might mistake for digits, hex letters, colons or
+/// line ends: Unicode decimal digits of several scripts, fullwidth forms, and Unicode spaces/line separators.
+const LOOKALIKES: &[&str] = &[
+    "\u{0660}", "\u{0661}", "\u{0669}", "\u{06F0}", "\u{06F5}", "\u{07C0}", "\u{0966}", "\u{096F}", "\u{09E6}", "\u{0E50}", "\u{1810}",
+    "\u{FF10}", "\u{FF11}", "\u{FF19}", "\u{FF21}", "\u{FF26}", "\u{FF41}", "\u{FF46}", "\u{1D7CE}", "\u{1D7D8}", "\u{1D7FF}",
+    "\u{FF1A}", "\u{FE55}", "\u{A789}", "\u{00A0}", "\u{2028}", "\u{2029}", "\u{0085}", "\u{00B2}", "\u{2160}", "\u{0410}", "\u{0391}",
+];
+
 const TERMINATORS: &[&[u8]] = &[
     b"",
     b"\r\n",
@@ -181,6 +189,8 @@ fn grammar_strategy() -> impl Strategy<Value = BytesCase> {
         12 => Just(vec![]),
         5 => proptest::collection::vec((any::<u16>(), any::<u8>(), 0u8..3), 1..=1),
         2 => proptest::collection::vec((any::<u16>(), any::<u8>(), 0u8..3), 2..=3),
+        // kinds 3/4: replace one character by / insert a multi-byte look-alike (index = byte mod table size)
+        3 => proptest::collection::vec((any::<u16>(), any::<u8>(), 3u8..5), 1..=2),
     ];
     (
         (addr_strategy(), byte_strategy(), data),
@@ -223,7 +233,16 @@ fn grammar_strategy() -> impl Strategy<Value = BytesCase> {
                     1 => {
                         out.remove(pos);
                     }
-                    _ => out.insert(pos, byte),
+                    2 => out.insert(pos, byte),
+                    k => {
+                        let seq = LOOKALIKES[byte as usize % LOOKALIKES.len()].as_bytes();
+                        if k == 3 {
+                            out.remove(pos);
+                        }
+                        for (j, b) in seq.iter().enumerate() {
+                            out.insert(pos + j, *b);
+                        }
+                    }
                 }
             }
             BytesCase { bytes: out }
@@ -305,6 +324,32 @@ pub fn run(ctx: &Ctx) {
         Ok(())
     });
     ctx.part_done("exhaustive-one-byte-frames", true, json!("':' + 12 digits over {0,1,F} (3^12)"));
+
+    // (i-d) every look-alike sequence substituted at / inserted before every position of three valid frames
+    par_range(ctx, "lookalike-characters", LOOKALIKES.len() as u64, |k, st| {
+        let seq = LOOKALIKES[k as usize].as_bytes();
+        for frame in [&b":01007F02FF7F"[..], &b":02000201031FD9\r\n"[..], &b":0000000000"[..]] {
+            for pos in 0..=frame.len() {
+                for replace in [false, true] {
+                    if replace && pos == frame.len() {
+                        continue;
+                    }
+                    let mut s: Vec<u8> = frame[..pos].to_vec();
+                    s.extend_from_slice(seq);
+                    s.extend_from_slice(&frame[pos + if replace { 1 } else { 0 }..]);
+                    check_bytes(&s, st, false).map_err(|m| (json!({"bytes": s}), m))?;
+                    // and twice in a row (an even number of "digits")
+                    let mut s2: Vec<u8> = frame[..pos].to_vec();
+                    s2.extend_from_slice(seq);
+                    s2.extend_from_slice(seq);
+                    s2.extend_from_slice(&frame[(pos + if replace { 2 } else { 0 }).min(frame.len())..]);
+                    check_bytes(&s2, st, false).map_err(|m| (json!({"bytes": s2}), m))?;
+                }
+            }
+        }
+        Ok(())
+    });
+    ctx.part_done("lookalike-characters", true, json!({"sequences": LOOKALIKES.len(), "what": "each multi-byte look-alike (Unicode digits, fullwidth hex letters/colon, Unicode spaces) replacing / inserted at every position of 3 valid frames, singly and doubled"}));
 
     // (ii) grammar based ------------------------------------------------------------------
     run_generated(ctx, "grammar", ctx.tier.pick(1_000_000, 20_000_000), grammar_strategy, |c, st| {
